@@ -2,7 +2,9 @@ package c08
 
 import (
 	"context"
+	"encoding/json"
 	"fmt"
+	hookconfig "github.com/flant/shell-operator/pkg/hook/config"
 	"k8s.io/client-go/tools/cache"
 	"testing"
 
@@ -35,6 +37,11 @@ type Case struct {
 	States   []map[string]any `json:"states"`
 	Initial  map[string]int   `json:"initial"` // object -> state index present in the cluster before the monitor is created
 	History  []Step           `json:"history"`
+	// ViaConfig: the monitor is configured by loading a hook configuration (executeHookOnEvent as declared, possibly
+	// empty, next to the deprecated watchEvent) instead of building the monitor configuration directly
+	ViaConfig  bool     `json:"via_config,omitempty"`
+	WatchEvent []string `json:"watch_event,omitempty"`
+	HasWatch   bool     `json:"has_watch_event,omitempty"`
 }
 
 var filters = []string{
@@ -103,6 +110,17 @@ func gen(t *rapid.T) Case {
 		for _, e := range []string{"Added", "Modified", "Deleted"} {
 			if rapid.IntRange(0, 3).Draw(t, "ev"+e) > 0 {
 				c.Events = append(c.Events, e)
+			}
+		}
+	}
+	if rapid.IntRange(0, 2).Draw(t, "viaConfig") == 0 {
+		c.ViaConfig = true
+		if rapid.Bool().Draw(t, "hasWatch") {
+			c.HasWatch = true
+			for _, e := range []string{"Added", "Modified", "Deleted"} {
+				if rapid.Bool().Draw(t, "w"+e) {
+					c.WatchEvent = append(c.WatchEvent, e)
+				}
 			}
 		}
 	}
@@ -314,6 +332,38 @@ func runCase(c Case) (ev.Info, error) {
 		cfg.WithEventTypes(ts)
 		listed = c.Events
 	}
+	if c.ViaConfig {
+		// the same binding written as a hook configuration and loaded by the real loader
+		kb := map[string]any{"name": "b", "apiVersion": "v1", "kind": "ConfigMap", "keepFullObjectsInMemory": c.KeepFull}
+		if c.Filter != "" {
+			kb["jqFilter"] = c.Filter
+		}
+		if !c.Default {
+			evs := []any{}
+			for _, e := range c.Events {
+				evs = append(evs, e)
+			}
+			kb["executeHookOnEvent"] = evs
+		}
+		if c.HasWatch {
+			wevs := []any{}
+			for _, e := range c.WatchEvent {
+				wevs = append(wevs, e)
+			}
+			kb["watchEvent"] = wevs
+			if c.Default {
+				// executeHookOnEvent is not declared: the deprecated key decides
+				listed = append([]string{}, c.WatchEvent...)
+			}
+		}
+		text, _ := json.Marshal(map[string]any{"configVersion": "v1", "kubernetes": []any{kb}})
+		hc := &hookconfig.HookConfig{}
+		if err := hc.LoadAndValidate(text); err != nil {
+			return info, fmt.Errorf("harness: hook configuration does not load: %v\n%s", err, text)
+		}
+		cfg = hc.OnKubernetesEvents[0].Monitor
+		info.Labels = append(info.Labels, "via-config")
+	}
 	var got []emitted
 	mon := kem.NewMonitor(context.Background(), fc.Client, kit.NopMetrics{}, cfg, func(e kemtypes.KubeEvent) {
 		em := emitted{}
@@ -455,7 +505,7 @@ func runCase(c Case) (ev.Info, error) {
 	return info, failure
 }
 
-const rule = "one informer of a real monitor on a fake cluster, unlocked, driven through OnAdd/OnUpdate/OnDelete with generated per-object histories over a pool of 2-5 generated object states (repeats, changes outside the projection, delete (also delivered as a DeletedFinalStateUnknown tombstone) and re-add, re-delivery of Added for listed objects - also flagged as coming from the informer's own initial list, possibly in a newer state -, resync), executeHookOnEvent all subsets plus default, jqFilter from a pool of object/array/scalar/null-valued single-output expressions, two multi-output expressions (objects with distinct keys) or none; oracle: trigger <=> type listed and (Deleted or independently computed projection differs from the last known), and every snapshot shows the latest state. Non-trivial: one object had both a suppressed and a delivered Modified. Distinct = distinct cases."
+const rule = "one informer of a real monitor on a fake cluster, unlocked, driven through OnAdd/OnUpdate/OnDelete with generated per-object histories over a pool of 2-5 generated object states (repeats, changes outside the projection, delete (also delivered as a DeletedFinalStateUnknown tombstone) and re-add, re-delivery of Added for listed objects - also flagged as coming from the informer's own initial list, possibly in a newer state -, resync), executeHookOnEvent all subsets plus default (in a third of the cases declared in a hook configuration loaded by the real loader, optionally next to the deprecated watchEvent), jqFilter from a pool of object/array/scalar/null-valued single-output expressions, two multi-output expressions (objects with distinct keys) or none; oracle: trigger <=> type listed and (Deleted or independently computed projection differs from the last known), and every snapshot shows the latest state. Non-trivial: one object had both a suppressed and a delivered Modified. Distinct = distinct cases."
 
 func TestInformer(t *testing.T) {
 	ev.Main(t, ev.Spec[Case]{Property: "C08", Part: "informer", Rule: rule, Gen: gen, Run: runCase})
